@@ -81,7 +81,7 @@ class WireManagerBase(abc.ABC):
 
         # wires of other blocks at the same spot must be graded the same
         for wire in self.wires:
-            for coincident in wire.coincidents:
+            for coincident in wire.ordered_coincidents:
                 grading = coincident.grading if coincident.is_aligned(wire) else coincident.grading.inverted
 
                 if wire.grading != grading:
@@ -157,7 +157,7 @@ class WirePropagateManager(WireManagerBase):
         # on coincident edges or blockMesh will whine;
         # it's better to just copy them
         for wire in self.wires:
-            for coincident in wire.coincidents:
+            for coincident in wire.ordered_coincidents:
                 if coincident.grading.is_defined:
                     if coincident.is_aligned(wire):
                         wire.grading = coincident.grading
